@@ -717,7 +717,6 @@ fn run_case<K: Kind>(c: &CaseIn) -> Report {
     let mut muts: BTreeSet<char> = BTreeSet::new(); // mutating op kinds since the last cached read
     let mut last_cached_len: Option<usize> = None;
     let mut cache_poison: Option<usize> = None;
-    let mut upd_root = false; // the `updated` map has an allocated root (BTreeMap::range checks its bounds only then)
     let mut dead = false;
     let trace = std::env::var("READS_TRACE").is_ok();
     if trace {
@@ -738,7 +737,6 @@ fn run_case<K: Kind>(c: &CaseIn) -> Report {
             let p: Vec<&str> = op.split(':').collect();
             let arg = |i: usize| p.get(i).map(|s| s.parse::<usize>().unwrap()).unwrap_or(0);
             let rstart0 = cv.inner.region().meta().start();
-            let upd_before = K::rawacc(&cv.inner).map(|a| !a.updated_().is_empty()).unwrap_or(false);
             rec_on();
             let res: Result<Result<(), String>, _> = catch_unwind(AssertUnwindSafe(|| -> Result<(), String> {
                 let v = &mut cv.inner;
@@ -818,17 +816,6 @@ fn run_case<K: Kind>(c: &CaseIn) -> Report {
             }));
             let evs = rec_off();
             muts.insert(p[0].chars().next().unwrap());
-            if let Some(a) = K::rawacc(&cv.inner) {
-                let nonempty = !a.updated_().is_empty();
-                match p[0] {
-                    "w" | "s" => {
-                        if upd_before {
-                            upd_root = false;
-                        }
-                    }
-                    _ => upd_root |= nonempty,
-                }
-            }
             rep.iline.push(' ');
             rep.iline.push_str(op);
             match res {
@@ -899,8 +886,7 @@ fn run_case<K: Kind>(c: &CaseIn) -> Report {
             wf &= us.keys().all(|k| *k < stored);
             wf &= (disk.len()..stored).all(|i| hs.contains(&i) || us.contains_key(&i));
             dump.push_str(&format!(
-                " ur={} disk={} holes={} upd={}",
-                upd_root as u8,
+                " disk={} holes={} upd={}",
                 names.enc(&disk),
                 if holes.is_empty() { "-".to_string() } else { holes.iter().map(|h| h.to_string()).collect::<Vec<_>>().join(",") },
                 if upd.is_empty() {
@@ -1071,7 +1057,6 @@ fn run_case<K: Kind>(c: &CaseIn) -> Report {
             let fam = family(&r.m);
             if let Some((o, l)) = bad {
                 let key = match r.target {
-                    'd' if r.m == "r1" && r.f >= stored => "read-at-once-reads-outside-region-for-buffered-index".to_string(),
                     'o' | 'q' | 'y' if after_rollback => "read-only-clone-reads-past-region-after-rollback".to_string(),
                     'o' | 'q' | 'y' => format!("read-only-clone-{fam}-reads-outside-region"),
                     _ if after_rollback => format!("{fam}-reads-outside-region-after-rollback"),
@@ -1125,15 +1110,6 @@ fn run_case<K: Kind>(c: &CaseIn) -> Report {
                     ('o' | 'y', _, _) => format!("read-only-clone-{fam}-{why}"),
                     (_, "sorted", "panic") => format!("read-sorted-panics-on-deleted-{}-slot", hole_side(sref, stored)),
                     (_, "sorted", _) if holes_here => "read-sorted-wrong-value-after-deleted-slot".to_string(),
-                    ('d', _, "panic")
-                        if dirty
-                            && (if r.m == "cs" || r.m == "csd" { r.sf.map(|i| i64_to_usize(i, cur.vals.len())).unwrap_or(0) } else { r.f }).min(cur.vals.len()) > stored
-                            && family(&r.m) != "cursor"
-                            && family(&r.m) != "sorted" =>
-                    {
-                        "fold-dirty-panics-when-range-starts-past-stored-len".to_string()
-                    }
-                    ('d', _, _) if r.m == "r1" && r.f >= stored => "read-at-once-wrong-value-for-buffered-index".to_string(),
                     (_, "cursor", "hang") if holes_here => "cursor-fold-never-terminates-after-deleted-slot".to_string(),
                     (_, "cursor", "panic") if holes_here => format!("cursor-panics-on-deleted-{}-slot", hole_side(sref, stored)),
                     (_, "cursor", _) if holes_here => "cursor-wrong-value-after-deleted-slot".to_string(),
